@@ -377,10 +377,10 @@ func (e *Exec) ufBytes(name string, parts []*Term, n int) []*Term {
 	if len(parts) == 0 {
 		res = b.UF(fmt.Sprintf("%s_0_%d", name, n), Sort(8*n))
 	} else {
-		// big-endian style concat: first byte highest (any fixed order works)
+		// little-endian concat (later bytes higher) so that re-assembled byte strings collapse
 		arg := parts[0]
 		for _, p := range parts[1:] {
-			arg = b.Concat(arg, p)
+			arg = b.Concat(p, arg)
 		}
 		res = b.UF(fmt.Sprintf("%s_%d_%d", name, int(arg.S), n), Sort(8*n), arg)
 	}
